@@ -6,4 +6,5 @@ set_option maxRecDepth 100000
 theorem nuclides_resolve_q0 : Gen.PT.nuclidesQ0.all nuclideRowOk = true := by decide +kernel
 theorem nuclides_anycase_q0 : Gen.PT.nuclidesQ0.all nuclideRowAnycaseOk = true := by decide +kernel
 theorem tree_rows_q0 : Gen.PT.nuclidesQ0.all treeRowOk = true := by decide +kernel
+theorem masses_float_q0 : Gen.PT.nuclidesQ0.all massFloatOk = true := by decide +kernel
 end QcelVerif.PT
